@@ -25,7 +25,9 @@ Sources  == {"model", "iface_plain", "iface_safe", "neither", "both"}
 \* StochasticTimeThresholdVolume that does not / does divide inside the grid
 Volumes  == {"off", "flag", "number", "object", "dividing", "baseobject"}
 Delays   == {"none", "false", "true"}
-Models   == {"plain", "delays", "rules", "both", "decay1", "inert"}   \* inert: the plain network with no molecules (total propensity 0)
+\* "dtrules": the model "rules" with its first rule at frequency 'dt' instead of 'start' (a dt rule runs on the rule step
+\* that every simulator takes at the initial instant)
+Models   == {"plain", "delays", "rules", "both", "decay1", "inert", "dtrules"}   \* inert: the plain network with no molecules (total propensity 0)
 
 \* ---- the five test models as data: species in model order, initial state, assignment rules
 \* (target index, coefficient vector, constant) applied in declaration order at the initial instant
@@ -35,7 +37,7 @@ Species(m) == IF m = "decay1" THEN <<"X">> ELSE <<"A", "B", "C">>
 X0(m, e) == IF m = "decay1" THEN (IF e THEN <<7>> ELSE <<5>>)
             ELSE IF m = "inert" THEN <<0, 0, 0>>
             ELSE IF e THEN <<4, 2, 0>> ELSE <<3, 1, 0>>
-Rules(m) == IF m \in {"rules", "both"}
+Rules(m) == IF m \in {"rules", "both", "dtrules"}
             THEN << [tgt |-> 2, coef |-> <<2, 0, 0>>, k |-> 0],      \* start:  B = 2*A
                     [tgt |-> 3, coef |-> <<1, 1, 0>>, k |-> 1] >>    \* repeat: C = A + B + 1
             ELSE << >>
@@ -128,7 +130,7 @@ Shape == (pc = "done" /\ out.kind = "result") =>
 \* rejection is reserved for contradictory arguments in the design
 RejectOnlyBadArgs == (pc = "done" /\ out.kind = "rejected") => opt.src \in {"neither", "both"}
 \* the first row satisfies the repeated assignment rule  C = A + B + 1
-FirstRowRule == (pc = "done" /\ out.kind = "result" /\ opt.model \in {"rules", "both"}) =>
+FirstRowRule == (pc = "done" /\ out.kind = "result" /\ opt.model \in {"rules", "both", "dtrules"}) =>
                    out.first[3] = out.first[1] + out.first[2] + 1 /\ out.first[2] = 2 * out.first[1]
 
 Emit == (pc = "done") => PrintT(ToJson([opt |-> opt, iface |-> iface, vol |-> vol, sim |-> sim, out |-> out,
